@@ -388,6 +388,22 @@ fn decode(t: &mut Tape) -> Case {
             }
         }
     }
+    // arbitrary functions only (nothing is promised about the order of assignments and reads
+    // there): an instruction scheduler went over a block - two non-branch instructions changed
+    // places through instructions_mut(), indices are no longer ascending in execution order
+    if mode == Mode::Arbitrary && t.chance(1, 2) {
+        for _ in 0..t.range(1, 2) {
+            let cands: Vec<usize> = (0..spec.blocks.len()).filter(|k| spec.blocks[*k].iter().filter(|o| !matches!(o.op, il::Operation::Branch { .. })).count() >= 2).collect();
+            if cands.is_empty() {
+                break;
+            }
+            let blk = cands[t.below(cands.len())];
+            let pos: Vec<usize> = (0..spec.blocks[blk].len()).filter(|k| !matches!(spec.blocks[blk][*k].op, il::Operation::Branch { .. })).collect();
+            let i = t.below(pos.len() - 1);
+            let j = i + 1 + t.below(pos.len() - 1 - i);
+            spec.swaps.push((blk, pos[i], pos[j]));
+        }
+    }
     let big_endian = t.chance(1, 2);
     let n = t.range(1, 3);
     let mut runs = Vec::new();
@@ -702,6 +718,12 @@ fn check(case: &Case, obs: &mut Obs) -> Result<(), Failure> {
     // a name used at two widths: whether "the scalar" was assigned is not well defined; such
     // functions are never counted as definitely assigned
     let da = bad.is_empty() && !punned;
+    if view.blocks.values().any(|is| is.windows(2).any(|w| w[0].index > w[1].index)) {
+        obs.class("block-with-indices-not-ascending");
+        if da {
+            obs.class("definitely-assigned-with-indices-not-ascending");
+        }
+    }
 
     // ---- classes
     let reach_blocks = case.spec.reachable_blocks();
@@ -937,6 +959,7 @@ fn main() -> std::process::ExitCode {
         "a panic or Err of constants() on a function that is not definitely assigned is outside the property and only counted".into(),
     ];
     spec.floors = vec![
+        ("block-with-indices-not-ascending", 0.015),
         ("definitely-assigned", 0.40),
         ("not-definitely-assigned", 0.10),
         ("result-ok-definitely-assigned", 0.30),
